@@ -65,6 +65,14 @@ fn check_trace(o: &mut Out, name: &str, bytes: &[u8], ops: &[Op], tr: &Trace, to
                 return;
             }
         }
+        if ok_row {
+            // neither may a ROW of a frame in which a row-level call already failed for good (undefined filter byte, missing data)
+            let fctl = rest.split("fctl=").nth(1).unwrap_or("").trim().to_string();
+            if failed_frames.contains(&fctl) {
+                o.violation(viol("success-for-a-frame-that-failed", detail(r, i)));
+                return;
+            }
+        }
         if ok_finish {
             finished = true;
         }
@@ -153,6 +161,38 @@ pub fn run(a: &Args) {
     }
     for k in 0..(if thorough { 40 } else { 8 }) {
         files.push((format!("bad-filter-{}", k), bad_filter_png(&mut rng, k % 2 == 1), None));
+    }
+    // bytes behind IEND: further chunks (even a complete frame) must never be decoded, at either level
+    for k in 0..(if thorough { 24 } else { 6 }) {
+        use crate::pngbuild::*;
+        let b = valid_file(&mut rng, &GenOpts { maxw: 4, maxh: 4, anc: false, animated: Some(k % 2 == 0) });
+        let mut bytes = b.bytes.clone();
+        let z = zlib_stored(&vec![0u8; 64], 64);
+        for c in [fctl_chunk(90, 1, 1, 0, 0, 1, 1, 0, 0), fdat_chunk(91, &z), Chunk::new(b"IDAT", z.clone()), Chunk::new(b"tEXt", b"k\0after".to_vec()), Chunk::new(b"IEND", vec![])] {
+            if rng.chance(2, 3) { bytes.extend(c.bytes()); }
+        }
+        // low level: after ImageEnd every further update() is refused
+        let mut d = StreamingDecoder::new();
+        let mut img = vec![];
+        let mut buf = &bytes[..];
+        let mut ended = false;
+        let mut guard = 0;
+        while !buf.is_empty() && guard < 100000 {
+            guard += 1;
+            match d.update(buf, &mut img) {
+                Ok((n, Decoded::ImageEnd)) => { buf = &buf[n..]; ended = true; break; }
+                Ok((n, _)) => buf = &buf[n..],
+                Err(_) => break,
+            }
+        }
+        o.direct_checks += 1;
+        if ended && !buf.is_empty() {
+            let r = guarded(|| d.update(buf, &mut img).map(|(n, e)| format!("Ok({}, {:?})", n, e)).map_err(|e| err_class(&e)));
+            if !matches!(r, Ok(Err(_))) {
+                o.violation(viol("update-accepted-after-image-end", vec![("file", jstr(&b.name)), ("bytes", jstr(&hex(&bytes))), ("result", jstr(&format!("{:?}", r)))]));
+            }
+        }
+        files.push((format!("{}+trailing", b.name), bytes, Some(b.frames.len())));
     }
     for (name, bytes, total) in &files {
         let kind = if name.contains('~') || total.is_none() { "failing-or-mutated" } else { "valid" };
